@@ -284,9 +284,14 @@ def run_jobs(jobs, nproc=4):
     return results
 
 
+EOF_BLOCK = "error_line_inside_the_input[block opener at end of input]"
 CLAUSES = {
     "no_internal_exception": ("internal", "crash"),
     "error_line_inside_the_input": ("bad-line",),
+    # one input class is reported under a clause of its own (it is a recorded known finding: an input that ends right
+    # after a block opener, possibly followed by blank lines, gets "expected an indented block" on line n + 1), so that it
+    # cannot hide, or be confused with, any other error line outside the input
+    EOF_BLOCK: ("bad-line",),
     "veneer_inactive_afterwards": ("veneer-active",),
     "returns_within_timeout": ("timeout",),
     "shown_examples_are_accepted": (),
@@ -297,8 +302,13 @@ def judge(job, rec, clause=None):
     """None if the oracle (or the given clause of it) holds, else a description."""
     group, origin, kind, desc, text, must = job
     bad_outcomes = ("internal", "timeout", "bad-line", "veneer-active", "crash") if clause is None else CLAUSES[clause]
+    eof_block = rec["outcome"] == "bad-line" and str(rec.get("msg") or "").startswith("expected an indented block after") and rec.get("lineno") == (rec.get("nlines") or 0) + 1
+    if clause == "error_line_inside_the_input" and eof_block:
+        return None
+    if clause == EOF_BLOCK and not eof_block:
+        return None
     if rec["outcome"] in bad_outcomes:
-        what = {"internal": f"internal exception {rec['exc']}: {rec['msg']}", "timeout": rec["msg"], "bad-line": f"{rec['exc']} reports line {rec['lineno']} outside 1..{rec['nlines']}", "veneer-active": rec["msg"], "crash": rec["msg"]}[rec["outcome"]]
+        what = {"internal": f"internal exception {rec['exc']}: {rec['msg']}", "timeout": rec["msg"], "bad-line": f"{rec['exc']} ({rec['msg']}) reports line {rec['lineno']} outside 1..{rec['nlines']}", "veneer-active": rec["msg"], "crash": rec["msg"]}[rec["outcome"]]
         return f"{origin} [{desc}]: {what}"
     if clause in (None, "shown_examples_are_accepted") and must and rec["outcome"] == "syntax":
         return f"{origin} [{desc}]: an example shown as valid is rejected: {rec['msg']} (line {rec['lineno']})"
@@ -320,7 +330,8 @@ def replay(inputs, clause):
     install_execution_stubs()
     rec = run_front_end(text)
     job = ("", inputs.get("origin", "?"), "", inputs.get("mutation", "?"), text, bool(inputs.get("must_accept")))
-    return judge(job, rec, clause.split(".")[-1] if clause.split(".")[-1] in CLAUSES else None)
+    cl = next((c for c in sorted(CLAUSES, key=len, reverse=True) if clause.endswith(c)), None)
+    return judge(job, rec, cl)
 
 
 def register(reg):
